@@ -34,7 +34,7 @@ def predicate(case, i, tb, stale_candidates):
         if t1[0] == 'backend' and own is None:
             for X in stale_candidates:
                 # the whole request (context ids included) behaves as under X, and not as under M
-                if X != M and all(obs == f(X) for obs, f in pairs) and any(obs != f(M) for obs, f in pairs[:2]): return dict(kind='stale-slot-mapping')
+                if X != M and all(obs == f(X) for obs, f in pairs) and any(obs != f(M) for obs, f in pairs[:2]) and any(f(X) != f(None) for obs, f in pairs): return dict(kind='stale-slot-mapping')
         return base
     if t1[0] == 'backend':
         idx = t1[3]; M = mapping_of(case, ref, idx)
